@@ -259,9 +259,13 @@ SPECS["C15"] = {
             "reader sees end-of-stream only after a shutdown or a drop), or "
             "transport::channel::{bounded(1..3), unbounded}; 1..7 messages (requests/cancels or ok/err responses; ids and "
             "durations biased to 0, 250, 251, 2^16, 2^32, 2^64-1; every stable io::ErrorKind; empty, multi-byte UTF-8, "
-            "JSON-escape-heavy, 250..300-byte and occasionally 64 KiB+ bodies), a third of the JSON scripts and a fifth of "
-            "the bincode scripts with one hand-written frame payload (optional fields omitted, reordered/unknown/duplicate "
-            "members, non-canonical varints, trailing bytes); compared per message: the serde calls of the real Serialize "
+            "JSON-escape-heavy, 250..300-byte and occasionally 64 KiB+ bodies), half of the JSON scripts (both directions) "
+            "with 1..3 hand-made JSON texts for the differential test of the two parsers (real serde_json output with "
+            "random whitespace at token boundaries, pretty-printed output, \\uXXXX escapes incl. surrogate pairs, numbers at "
+            "the u64 / i64 boundaries, unknown members with nested values before / between / duplicated around the known "
+            "ones, reordered members, omitted optional members, and texts both must reject: lone surrogates, bad escapes, "
+            "raw control characters, leading zeros, truncation at a random position, trailing garbage, structural damage) "
+            "and a fifth of the bincode scripts with one hand-written payload (non-canonical varints, trailing bytes); compared per message: the serde calls of the real Serialize "
             "impl (recording serializer) against the model's event list, the bytes on the stream against the model's "
             "frame, every item the reading end yields, and the end of the stream; non-trivial = reads or writes were "
             "fragmented / Pending, or the stream was cut, or a hand-written payload / non-portable kind / full bounded "
@@ -269,10 +273,11 @@ SPECS["C15"] = {
             "bounded-exhaustive family: every stable io::ErrorKind x {bincode, json, bounded, unbounded}, every boundary "
             "id x 4 chunking classes x 4 transports, every cut position 1..39 of a two-frame stream, and 70 000-byte and 1 MiB bodies",
     "trusted_base": COMMON_TB + WIRE_TB + [
-        "JSON text: the model prints value trees with its own compact printer (compared byte for byte with "
-        "serde_json::to_vec through the real transport); it has no text parser, so for the reading direction the model "
-        "decodes the value tree of the frame at the same position (hand-written payloads: the tree produced by the "
-        "harness's own small order-preserving JSON parser)",
+        "JSON text: modelled in coq/JsonText.v (printer = serde_json::to_vec's compact form, compared byte for byte with "
+        "the real transport's output; parser = a total recursive-descent parser for the subset tarpc's messages live in, "
+        "which the model uses to decode every Json frame from its BYTES, compared with serde_json's parser through the "
+        "real transport on every script); the harness's own small JSON parser is only a third opinion, cross-checked "
+        "against the Gallina parser inside Coq",
     ],
     "level_text": "Main theorem C15_monitor: for every configuration (bincode/json framed transport under every list of read "
                   "chunk sizes and every cut position, bounded/unbounded channel) and every script of "
@@ -291,10 +296,14 @@ SPECS["C15"] = {
                   "computation; the model's events, bytes and decoded items are compared with the real codecs inside Coq on "
                   "every generated script, and the monitor is evaluated on the implementation's traces.",
     "level_note": "Trusted: Coq kernel, vm_compute, translator, Rust harness, Python driver. Modelled not verified: the "
-                  "third-party encodings listed in the trusted base. Partial: serde_json's TEXT layer (printer/parser) is "
-                  "only differentially tested (model printer vs real bytes; no Gallina parser); UTF-8 validity of bodies is "
-                  "not modelled (the model decoder accepts any bytes); TCP/UDS sockets are represented by an arbitrary "
-                  "scripted byte stream. Boundary (refutation lemma C15_truncated_header_refuted, script in the design "
+                  "third-party encodings listed in the trusted base, including serde_json's text grammar (theorems "
+                  "C15_json_text_roundtrip*: parse (print j) = Some j with any whitespace between tokens, composed with the "
+                  "tree-level round trips into decode_text (encode_text m) = Some m). Outside the modelled JSON subset (the "
+                  "Gallina parser rejects them, the generator does not produce them): fractions / exponents / '-0' (serde_json "
+                  "reads them as f64, which no tarpc field admits), validation of UTF-8 in raw string bytes, serde_json's "
+                  "recursion limit of 128 and its lenient scanner for ignored values (a lone surrogate inside an unknown "
+                  "member is not rejected by serde_json). UTF-8 validity of bodies is not modelled; TCP/UDS sockets are "
+                  "represented by an arbitrary scripted byte stream. Boundary (refutation lemma C15_truncated_header_refuted, script in the design "
                   "notes): a stream cut exactly after a 4-byte length header reads as a clean end-of-stream, not an error "
                   "(tokio-util decode_eof); C15 only demands that no frame is made up and the stream ends, the error clause is "
                   "checked by C16 (known finding there). "
@@ -606,19 +615,19 @@ def _server_spec(pid, parts, level_text, level_note, assumptions):
 
 SPECS["C08"] = _server_spec(
     "C08", [C08_PART], level_text="State-form theorems, for EVERY transport and every state (Properties/C08.v): a request whose id is tracked is refused by start_request (C08_duplicate_ignored); a response is handed to the transport only while its id is tracked and that untracks it, so at most one response per tracked incarnation leaves the channel (C08_response_tracked_written_once); a response for an untracked id (cancelled, expired, already answered) is dropped without any transport call (C08_response_untracked_dropped); the hypothesis reuse_only_after_completion is necessary (C08_reuse_after_cancel_refuted, B1: the second request is answered with the first handler's value). The full trace-level property (every request read is yielded exactly once or ignored as a duplicate; every response written answers the latest open incarnation of its id with exactly the value its handler completed with; nothing after the channel is dropped) is the executable monitor c08_ok (coq/ServerMon.v), evaluated inside Coq on the observations of the REAL BaseChannel -> [MaxRequests] -> Requests -> InFlightRequest::execute for hundreds (thorough: 16 000 + a 33 614-script exhaustive sweep) of generated scripts, each also replayed on the model coq/Server.v and compared observation by observation.",
-    level_note="Trusted: Coq kernel, vm_compute, the Rust harness (scripted transport, virtual clock by clock_gettime interposition, hand polling) and the Python driver. Modelled, not verified: tokio bounded/unbounded mpsc, futures Abortable, Fuse, tokio-util DelayQueue (ms granularity; the order among several due timers is replayed by an executable copy of the timer wheel that no theorem depends on). Correspondence between coq/Server.v and the real BaseChannel/Requests/MaxRequests/execute is sampled (every transport call, yield, handler event and both gauges compared inside Coq), not proved. The observer/model simulation (coq/ServerSim*.v) is proved along every run for every transport (ServerSim6.run_top: the unconditional invariant InvU through every polling loop, poll result and application-side op) and two verdict flags are threaded through it (ServerSim7.server_never_early: trace well formed, no early abort); the theorem 'the full monitor accepts every run of the model' needs the hypothesis-dependent half of the invariant and is NOT claimed: its exact statements are pinned as open in coq/ServerSpec.v (sanity-tested by vm_compute on 15 838 scripts, Checks/SrvSpecTest.v) and the monitor is evaluated on the real code's traces on every run. Hypotheses: reuse_only_after_completion (B1), stops_after_error, one op is atomic.",
+    level_note="Trusted: Coq kernel, vm_compute, the Rust harness (scripted transport, virtual clock by clock_gettime interposition, hand polling) and the Python driver. Modelled, not verified: tokio bounded/unbounded mpsc, futures Abortable, Fuse, tokio-util DelayQueue (ms granularity; the order among several due timers is replayed by an executable copy of the timer wheel that no theorem depends on). Correspondence between coq/Server.v and the real BaseChannel/Requests/MaxRequests/execute is sampled (every transport call, yield, handler event and both gauges compared inside Coq), not proved. The observer/model simulation (coq/ServerSim*.v) is proved along every run for every transport (ServerSim6.run_top: the unconditional invariant InvU through every polling loop, poll result and application-side op) and two verdict flags are threaded through it (ServerSim7.server_never_early: trace well formed, no early abort); the theorem 'the full monitor accepts every run of the model' is PROVED for every transport, environment, configuration and op list (statements pinned in coq/ServerSpec.v, proofs coq/ServerProofsP*.v over the hypothesis-dependent invariant InvH, restated as the *_monitor theorems of Properties) and the monitor is also evaluated on the real code's traces on every run. Hypotheses: reuse_only_after_completion (B1), stops_after_error, one op is atomic.",
     assumptions=[SRV_ASSUME_ATOMIC, SRV_ASSUME_B1, SRV_ASSUME_STOP])
 SPECS["C12"] = _server_spec(
     "C12", [C12_PART], level_text="Theorems for EVERY transport, configuration (L = 0 included) and op list (Properties/C12.v): MaxRequests::poll_next hands a request on only if with it at most L are tracked (C12_maxreq_below_limit), and in every run the in-flight gauge right after a yield is at most L (C12_yield_within_limit, by induction over op lists with the invariant 'timer queue and request table hold the same ids'). K1: the clause 'refused only if L really were in flight' is false of the code; the witness theorem C12_freed_in_same_poll_witness shows request 2 throttled with 0 in flight, rejected by the full monitor and accepted by the relaxed one. Clauses (b) exactly one throttle reply per refused request, never yielded, and (c) outside the class FreedInSamePoll are the executable monitors c12_ok / c12_rel_ok (coq/ServerMon.v), evaluated on the real code's traces for every generated script (limits 0..3, cancels adjacent to requests, sink not ready), each also replayed on the model and compared; a rejection is a KNOWN-FINDING only if the relaxed monitor, which exempts exactly the obligations that arise after capacity was freed earlier in the same Requests poll, accepts the shrunk script.",
-    level_note="Trusted: Coq kernel, vm_compute, the Rust harness (scripted transport, virtual clock by clock_gettime interposition, hand polling) and the Python driver. Modelled, not verified: tokio bounded/unbounded mpsc, futures Abortable, Fuse, tokio-util DelayQueue (ms granularity; the order among several due timers is replayed by an executable copy of the timer wheel that no theorem depends on). Correspondence between coq/Server.v and the real BaseChannel/Requests/MaxRequests/execute is sampled (every transport call, yield, handler event and both gauges compared inside Coq), not proved. The observer/model simulation (coq/ServerSim*.v) is proved along every run for every transport (ServerSim6.run_top: the unconditional invariant InvU through every polling loop, poll result and application-side op) and two verdict flags are threaded through it (ServerSim7.server_never_early: trace well formed, no early abort); the theorem 'the full monitor accepts every run of the model' needs the hypothesis-dependent half of the invariant and is NOT claimed: its exact statements are pinned as open in coq/ServerSpec.v (sanity-tested by vm_compute on 15 838 scripts, Checks/SrvSpecTest.v) and the monitor is evaluated on the real code's traces on every run. Known finding K1 (FreedInSamePoll) is reproduced on every run from its committed witness. The expiry variant of K1 (capacity freed by an expiry in the same inner poll) is only visible to the model-level class, not to the observer's count.",
+    level_note="Trusted: Coq kernel, vm_compute, the Rust harness (scripted transport, virtual clock by clock_gettime interposition, hand polling) and the Python driver. Modelled, not verified: tokio bounded/unbounded mpsc, futures Abortable, Fuse, tokio-util DelayQueue (ms granularity; the order among several due timers is replayed by an executable copy of the timer wheel that no theorem depends on). Correspondence between coq/Server.v and the real BaseChannel/Requests/MaxRequests/execute is sampled (every transport call, yield, handler event and both gauges compared inside Coq), not proved. The observer/model simulation (coq/ServerSim*.v) is proved along every run for every transport (ServerSim6.run_top: the unconditional invariant InvU through every polling loop, poll result and application-side op) and two verdict flags are threaded through it (ServerSim7.server_never_early: trace well formed, no early abort); the theorem 'the full monitor accepts every run of the model' is PROVED for every transport, environment, configuration and op list (statements pinned in coq/ServerSpec.v, proofs coq/ServerProofsP*.v over the hypothesis-dependent invariant InvH, restated as the *_monitor theorems of Properties) and the monitor is also evaluated on the real code's traces on every run. Known finding K1 (FreedInSamePoll) is reproduced on every run from its committed witness. The expiry variant of K1 (capacity freed by an expiry in the same inner poll) is only visible to the model-level class, not to the observer's count.",
     assumptions=[SRV_ASSUME_ATOMIC])
 SPECS["C06"] = _server_spec(
     "C06", [C06_PART], level_text="State-form theorems, for EVERY transport and every state (Properties/C06.v): the timer armed for a request is due at min(deadline, now + 365 days) or later (C06_timer_not_before_deadline; the F5 clamp is part of the statement); expiry only ever takes a due timer, aborts exactly that request and leaves the others (C06_expiry_never_early, C06_expiry_frame); when BaseChannel::poll_next goes idle no timer is due and no server-side cancel is pending (C06_idle_means_enforced); an aborted execute() never polls its handler again (C04_aborted_never_progresses). Trace form, by induction over op lists with the observer/model simulation invariant (coq/ServerSim*.v): C06_never_early_monitor - in EVERY run, for every transport whose fuel measure decreases with each item it hands out, no execute() ends without its handler having completed unless the request's Cancel was read, its deadline timer was due or the channel was dropped, and the trace is well formed. K2: with MaxRequests at its limit and the sink not ready the inner channel is not polled, so enforcement waits for the sink: witness theorem C06_limiter_blocked_on_sink_witness. The trace-level property (no abort before the timer is due; no handler progress and nothing written after the poll that had to process the expiry; other requests unaffected) is the executable monitor c06_ok / c06_rel_ok, evaluated on the real code's traces under a virtual clock stepped to deadline-1 / deadline / deadline+1, with deadlines from already expired to beyond the timer range, with and without limiter, sink ready or not; each script is also replayed on the model and compared.",
-    level_note="Trusted: Coq kernel, vm_compute, the Rust harness (scripted transport, virtual clock by clock_gettime interposition, hand polling) and the Python driver. Modelled, not verified: tokio bounded/unbounded mpsc, futures Abortable, Fuse, tokio-util DelayQueue (ms granularity; the order among several due timers is replayed by an executable copy of the timer wheel that no theorem depends on). Correspondence between coq/Server.v and the real BaseChannel/Requests/MaxRequests/execute is sampled (every transport call, yield, handler event and both gauges compared inside Coq), not proved. The observer/model simulation (coq/ServerSim*.v) is proved along every run for every transport (ServerSim6.run_top: the unconditional invariant InvU through every polling loop, poll result and application-side op) and two verdict flags are threaded through it (ServerSim7.server_never_early: trace well formed, no early abort); the theorem 'the full monitor accepts every run of the model' needs the hypothesis-dependent half of the invariant and is NOT claimed: its exact statements are pinned as open in coq/ServerSpec.v (sanity-tested by vm_compute on 15 838 scripts, Checks/SrvSpecTest.v) and the monitor is evaluated on the real code's traces on every run. Known finding K2 (LimiterBlockedOnSink) is reproduced on every run from its committed witness. Hypotheses: virtual clock below 2^35 ms (the DelayQueue's idle-wheel range is an environment hypothesis of C16); deadlines more than 365 days away are enforced after 365 days (F5 clamp); reuse_only_after_completion and stops_after_error for the clause 'no progress after expiry'.",
+    level_note="Trusted: Coq kernel, vm_compute, the Rust harness (scripted transport, virtual clock by clock_gettime interposition, hand polling) and the Python driver. Modelled, not verified: tokio bounded/unbounded mpsc, futures Abortable, Fuse, tokio-util DelayQueue (ms granularity; the order among several due timers is replayed by an executable copy of the timer wheel that no theorem depends on). Correspondence between coq/Server.v and the real BaseChannel/Requests/MaxRequests/execute is sampled (every transport call, yield, handler event and both gauges compared inside Coq), not proved. The observer/model simulation (coq/ServerSim*.v) is proved along every run for every transport (ServerSim6.run_top: the unconditional invariant InvU through every polling loop, poll result and application-side op) and two verdict flags are threaded through it (ServerSim7.server_never_early: trace well formed, no early abort); the theorem 'the full monitor accepts every run of the model' is PROVED for every transport, environment, configuration and op list (statements pinned in coq/ServerSpec.v, proofs coq/ServerProofsP*.v over the hypothesis-dependent invariant InvH, restated as the *_monitor theorems of Properties) and the monitor is also evaluated on the real code's traces on every run. Known finding K2 (LimiterBlockedOnSink) is reproduced on every run from its committed witness. Hypotheses: virtual clock below 2^35 ms (the DelayQueue's idle-wheel range is an environment hypothesis of C16); deadlines more than 365 days away are enforced after 365 days (F5 clamp); reuse_only_after_completion and stops_after_error for the clause 'no progress after expiry'.",
     assumptions=[SRV_ASSUME_ATOMIC, SRV_ASSUME_B1, SRV_ASSUME_STOP, SRV_ASSUME_CLOCK])
 SPECS["C04"] = _server_spec(
     "C04", [C04_PART, C04_CHAIN_PART], level_text="State-form theorems, for EVERY transport and every state (Properties/C04.v): a Cancel for a tracked id sets the abort flag of that request's handle, forgets the request (in-flight count drops) and removes its timer (C04_cancel_stops_tracked); an execute() whose handle is aborted never polls its handler again and buffers no response (C04_aborted_never_progresses); a Cancel for an untracked id leaves the state unchanged (C04_cancel_unknown_frame); cascade: over the abstract composition of an n-node chain, abandoning the head call leaves no unfinished handler, by induction on the depth (C04_cascade_partial: the two client-side facts - handler drop abandons its call; an abandoned transmitted call is cancelled on the wire - and the server-side fact are hypotheses of the statement, to be discharged from the client lemmas and from (a) + the abort waker contract). The hypothesis reuse_only_after_completion is necessary (_refuted witness). Trace level: the monitor c04_ok on the real server's traces with a Cancel at every position relative to handler start, completion, response buffering and response write, 1..4 concurrent requests, with/without limiter, sink-not-ready periods; and REAL chains of depth 1..3 (client::new + BaseChannel::requests per node, nested calls with the handler's context, wake-driven, virtual time) checked by c04_chain_ok: after abandonment (or the deadline) and quiescence every started handler has ended and every server has 0 in flight.",
-    level_note="Trusted: Coq kernel, vm_compute, the Rust harness (scripted transport, virtual clock by clock_gettime interposition, hand polling) and the Python driver. Modelled, not verified: tokio bounded/unbounded mpsc, futures Abortable, Fuse, tokio-util DelayQueue (ms granularity; the order among several due timers is replayed by an executable copy of the timer wheel that no theorem depends on). Correspondence between coq/Server.v and the real BaseChannel/Requests/MaxRequests/execute is sampled (every transport call, yield, handler event and both gauges compared inside Coq), not proved. The observer/model simulation (coq/ServerSim*.v) is proved along every run for every transport (ServerSim6.run_top: the unconditional invariant InvU through every polling loop, poll result and application-side op) and two verdict flags are threaded through it (ServerSim7.server_never_early: trace well formed, no early abort); the theorem 'the full monitor accepts every run of the model' needs the hypothesis-dependent half of the invariant and is NOT claimed: its exact statements are pinned as open in coq/ServerSpec.v (sanity-tested by vm_compute on 15 838 scripts, Checks/SrvSpecTest.v) and the monitor is evaluated on the real code's traces on every run. The cascade theorem is partial: it is stated over an abstract composition whose three per-node facts are hypotheses; the chain part has no model (the monitor alone decides). Waker behaviour (abort wakes the execute() task) is assumed, not modelled.",
+    level_note="Trusted: Coq kernel, vm_compute, the Rust harness (scripted transport, virtual clock by clock_gettime interposition, hand polling) and the Python driver. Modelled, not verified: tokio bounded/unbounded mpsc, futures Abortable, Fuse, tokio-util DelayQueue (ms granularity; the order among several due timers is replayed by an executable copy of the timer wheel that no theorem depends on). Correspondence between coq/Server.v and the real BaseChannel/Requests/MaxRequests/execute is sampled (every transport call, yield, handler event and both gauges compared inside Coq), not proved. The observer/model simulation (coq/ServerSim*.v) is proved along every run for every transport (ServerSim6.run_top: the unconditional invariant InvU through every polling loop, poll result and application-side op) and two verdict flags are threaded through it (ServerSim7.server_never_early: trace well formed, no early abort); the theorem 'the full monitor accepts every run of the model' is PROVED for every transport, environment, configuration and op list (statements pinned in coq/ServerSpec.v, proofs coq/ServerProofsP*.v over the hypothesis-dependent invariant InvH, restated as the *_monitor theorems of Properties) and the monitor is also evaluated on the real code's traces on every run. Part `chain` (wake-driven real chains through the srv driver) has no model: its monitor alone decides; part `compose` compares the composition model Chain.v observation by observation. C04_cascade_partial (abstract composition with hypotheses) is kept for reference and superseded by C04_chain_cascade. Waker behaviour (abort wakes the execute() task) is assumed, not modelled.",
     assumptions=[SRV_ASSUME_ATOMIC, SRV_ASSUME_B1, SRV_ASSUME_STOP])
 
 # ---------------------------------------------------------------------------------------------
@@ -1049,7 +1058,7 @@ def _add_server_half(pid, part, chk, note, assumes):
 _add_server_half("C14", C14_SERVER_PART, "C14server",
     "Server half proved: C14_server_contract - for EVERY transport, environment, configuration and op list the per-poll "
     "call log of Requests/MaxRequests satisfies the same contract monitor (every failed write fatal), up to the first "
-    "poll that yields an error (boundary stops_after_error, refuted without it by C14_server_unrestricted_refuted); "
+    "poll that yields an error (boundary stops_after_error, refuted without it by C14_server_unrestricted_refuted; for a channel driven through tarpc's own execute() adapter the boundary is discharged: C14_exec_stops_after_error, C14_server_contract_exec over EVERY poll, coq/ServerExec.v with the futures-util TakeWhile/FilterMap/Map semantics modelled, not verified); "
     "C14_server_poll_total - no poll of the stream runs out of fuel. Tied to the real BaseChannel/MaxRequests/Requests "
     "by the `srv` driver over the same scripted transport.",
     [SRV_ASSUME_ATOMIC, SRV_ASSUME_STOP])
@@ -1057,18 +1066,20 @@ _add_server_half("C11", C11_SERVER_PART, "C11server",
     "Server half: C11_server_timers_track_requests proved (every transport: timers and request table hold the same ids "
     "in every reachable state; gauges agree after every op); the full server monitor (in_flight = yielded incarnations "
     "not yet answered, cancelled, expired or abandoned; outside the K2 class) runs on the real traces on every run and "
-    "is pinned as ServerSpec.stmt_s11_rel (proof in progress). K2 is a KNOWN FINDING (C11_server_K2_witness).",
+    "is PROVED for every transport and op list: C11_server_monitor_rel (blocked polls exempt, unconditional) and C11_server_monitor (full strength outside the K2 class), statements ServerSpec.stmt_s11_rel / stmt_s11. K2 is a KNOWN FINDING (C11_server_K2_witness).",
     [SRV_ASSUME_ATOMIC, SRV_ASSUME_B1])
 _add_server_half("C10", C10_SERVER_PART, "C10server",
     "Server half: C10_server_base_end proved (BaseChannel ends only after end of stream with nothing tracked); the full "
     "server monitor (the Requests stream ends only after inbound EOF, no request in flight, and a completed flush after "
-    "the last write) runs on the real traces on every run and is pinned as ServerSpec.stmt_s10 (proof in progress).",
+    "the last write) is PROVED for every transport and op list (C10_server_monitor = ServerSpec.stmt_s10) and runs on the real traces on every run.",
     [SRV_ASSUME_ATOMIC])
 _add_server_half("C09", C09_SERVER_PART, "C09server",
     "Server half: C09_server_drop_aborts proved (dropping the channel aborts every tracked request; an aborted execute() "
     "never polls its handler again); the full server monitor (a failing transport call ends the poll, which reports that "
-    "activity; nothing after it; no panic) runs on the real traces on every run and is pinned as ServerSpec.stmt_s09 "
-    "(proof in progress).",
+    "activity; nothing after it; no panic) is PROVED for every transport and op list (C09_server_monitor = ServerSpec.stmt_s09) "
+    "and runs on the real traces on every run; for a channel driven through tarpc's own execute() adapter "
+    "(take_while/filter_map/map, coq/ServerExec.v, futures-util semantics modelled) the hypothesis stops_after_error is "
+    "discharged: C09_server_monitor_exec leaves only B1.",
     [SRV_ASSUME_ATOMIC, SRV_ASSUME_STOP])
 _add_server_half("C18", C18_SERVER_PART, "C18server",
     "Server half proved: C18_server_monitor - for EVERY transport the request handed to the application carries the id, "
@@ -1079,8 +1090,7 @@ _add_server_half("C18", C18_SERVER_PART, "C18server",
 SPECS["C18"]["level_note"] = SPECS["C18"]["level_note"].replace(
     "Partial: the server half (the handler observes the same trace id and sampling with a fresh span "
     "id) and multi-hop chains are covered by the server model's Yield observations and by the chain driver, not by "
-    "this theorem;", "Partial: multi-hop chains follow by composing the client and the server theorem hop by hop (not a "
-    "separate theorem yet);")
+    "this theorem;", "Multi-hop: C18_chain_trace over the composition model (part compose);")
 
 
 # C02, server half: wake-driven Requests stream + execute() futures
@@ -1096,6 +1106,112 @@ SPECS["C02"]["level_text"] += (
     "writable, every delivered message read) runs on the real traces; its two statements (settle terminates, the "
     "monitor accepts every model run) are pinned in ServerWakeSpec.v and tested by vm_compute on 25 000 scripts; "
     "their proofs are in progress.")
+
+
+
+# the server monitor theorems (proved after the specs above were written)
+for _pid, _t in (
+        ("C04", " MONITOR THEOREM proved: C04_monitor - for every transport, environment, configuration and op list the "
+                "model's run is accepted by c04_ok (hypotheses B1 and stops_after_error inside the monitor)."),
+        ("C06", " MONITOR THEOREMS proved: C06_monitor_rel (blocked polls exempt, unconditional) and C06_monitor (full "
+                "strength outside the K2 class LimiterBlockedOnSink) - for every transport, environment, configuration "
+                "and op list the model's run is accepted (hypotheses B1 and stops_after_error inside the monitor)."),
+        ("C08", " MONITOR THEOREM proved: C08_monitor - for every transport, environment, configuration and op list the "
+                "model's run is accepted by c08_ok (hypotheses B1 and stops_after_error inside the monitor)."),
+        ("C12", " MONITOR THEOREMS proved: C12_monitor_rel (capacity freed earlier in the same poll exempt, "
+                "unconditional) and C12_monitor (full strength outside the K1 class FreedInSamePoll) - for every "
+                "transport, environment, configuration (L = 0 included) and op list.")):
+    SPECS[_pid]["level_text"] += _t
+
+# ---- chain composition (coq/Chain*.v, harness `chain`): parts of C04, C18, C07 ----
+CHAIN_RULE = ("REAL chains of depth 1..3: node i = client::new + BaseChannel::with_defaults(rx).requests() over "
+              "transport::channel::unbounded() (client end through a forwarding tap that notes successful writes); the handler "
+              "of node i < depth is a real async block `client_{i+1}.call(ctx_of_request, body).await` inside the real "
+              "InFlightRequest::execute(serve(..)); leaves scripted (run / Ok v / ServerError); every dispatch, Requests stream, "
+              "execute future and head call polled explicitly under virtual time; scripts `d=<depth>|tok ..` over {C d:tid:smp:body "
+              "head call, P j poll it, X j drop it, D i / R i poll dispatch / stream of node i, H i.k[=v|!] poll execute future k of "
+              "node i, Z i / Y i drop dispatch / stream (and its transport end), A dt advance the one clock, S SettleAll = poll every "
+              "component in a fixed order round after round until 3 rounds without event or gauge change}; generator: 3/4 structured "
+              "(0..2 earlier calls settled first; the focus call carried hop by hop to a random stage, then: abandoned there / reply on "
+              "its way back then abandoned / completes or leaf fails / deadline -1,0,+1 passes / explicit hop-by-hop cascade / earlier "
+              "call abandoned / a link end dropped with a request or a cancellation unread in the link; then usually every other head "
+              "call is finished or abandoned and a final SettleAll), 1/4 unstructured (any op at any time); distinct trace ids, "
+              "both sampling decisions, deadlines 3 ms .. 100 s and rarely 2^36 ms; thorough adds the sweep (every depth x every "
+              "abandonment stage on the way down and on the way back, one and two calls); compared inside Coq with coq/Chain.v: "
+              "every wire write (id, deadline, trace, span name, body), yield (node, k, id, deadline, trace, body), handler event, "
+              "caller result, dispatch/stream result and all four gauges per node")
+
+
+def chain_part(nontrivial, rule_tail, quick=600, thorough=20000):
+    return {
+        "name": "compose",
+        "harness": "chain",
+        "cases_header": HDR.format(mods="Transport Chain Checks.Chaincheck"),
+        "case_term": lambda c: f"({c['cfg']}, {c['ops']}, {c['obs']})",
+        "quick": {"count": quick},          # 600 scripts: ~3 s harness + ~2 s coqc warm
+        "thorough": {"count": thorough},
+        "sweeps": [[]],                     # `harness chain sweep` (120 scripts)
+        "nontrivial": nontrivial,
+        "rule": CHAIN_RULE + "; non-trivial = " + rule_tail + "; distinct = distinct script text",
+        "max_shrinks": 3,
+        "shrink_budget": 40,
+    }
+
+
+C04_COMPOSE_PART = chain_part(
+    lambda c: "settle-owed" in c["tags"] and "cascade-dropped-handlers" in c["tags"],
+    "a SettleAll at which the cascade clause was owed (every head call over, nothing tainted) and during which the "
+    "real chain dropped at least one running handler")
+C18_COMPOSE_PART = chain_part(
+    lambda c: "yield@node2" in c["tags"] or "yield@node3" in c["tags"],
+    "the real chain yielded a request on node 2 or 3 (trace id / sampling followed the request across a hop)",
+    quick=300, thorough=8000)
+C07_COMPOSE_PART = chain_part(
+    lambda c: ("yield@node2" in c["tags"] or "yield@node3" in c["tags"]),
+    "the real chain yielded a request on node 2 or 3 (the deadline was carried across an in-memory hop)",
+    quick=300, thorough=8000)
+
+
+CHAIN_TB = [
+    "composition model coq/Chain.v (client model + link + server model per node; nested call = the handler of node i "
+    "calls client i+1 with the request's context); modelled, not verified: tokio unbounded mpsc as a FIFO with peer-gone "
+    "flags (transport::channel::unbounded), an async block as 'first poll creates and polls the nested call, drop drops "
+    "it'; wakers are not modelled in this part (every component is polled explicitly; wake behaviour is C02's)",
+    "harness/src/chain.rs: real chains of depth 1..3 with a forwarding tap on the client end of each link that notes "
+    "successful writes (KWire observations)",
+]
+CHAIN_NOTE_C04 = (
+    " COMPOSITION (part compose, coq/Chain*.v): C04_chain_cascade is proved for EVERY depth d and every op list of fewer "
+    "than 2^64 - 1 ops over the composition of the client model and the server model (node i = client i, link, server i; "
+    "handler of node i calls client i+1 with the request's context): at every SettleAll that reaches a quiet round, if "
+    "every head call is resolved or abandoned and the run is untainted, every handler started on ANY node is Done or "
+    "Dropped and every server's in-flight and timer gauges are 0. Untainted excludes: a dropped link end, an ended "
+    "dispatch or request stream, fuel/rounds exhaustion, a disagreement of the timer-order oracle, and a head deadline "
+    "above MAX_TIMEOUT (client and server clamp their timers at different instants, so a handler may run a few ms longer; "
+    "stated as an exemption). It supersedes C04_cascade_partial. The same composition is run against REAL chains of "
+    "depth 1..3 with every component polled explicitly and every wire write, yield, handler event, result and gauge "
+    "compared inside Coq (Checks/Chaincheck.v). Two further statements about the composition are pinned but open in "
+    "ChainSpec.v (stmt_chain_wire: per-hop wire clause; stmt_chain_fuel: no poll out of fuel); their monitors run on "
+    "every real trace.")
+for _pid, _part, _note in (
+        ("C04", C04_COMPOSE_PART, CHAIN_NOTE_C04),
+        ("C18", C18_COMPOSE_PART,
+         " MULTI-HOP (part compose, coq/Chain*.v): C18_chain_trace is proved for every depth and every op list over the "
+         "composition of the client and server models: the request yielded to a handler on ANY node carries the trace id "
+         "and sampling decision of a head call with the same body; run against REAL chains of depth 1..3 (every wire "
+         "write incl. span id, every yield compared inside Coq). The per-hop wire clause across the composition "
+         "(ChainSpec.stmt_chain_wire: fresh span id per hop, cancel repeats its request's trace and span) is pinned, "
+         "evaluated on every real trace, and proved per hop by C18_client_monitor, not yet for the composition."),
+        ("C07", C07_COMPOSE_PART,
+         " MULTI-HOP over in-memory links (part compose, coq/Chain*.v): C07_chain_deadline is proved for every depth and "
+         "every op list over the composition of the client and server models: the request yielded on ANY node carries "
+         "the deadline (the Instant, verbatim) of a head call with the same body, also when it has already passed; run "
+         "against REAL chains of depth 1..3.")):
+    _sp = SPECS[_pid]
+    _sp["parts"] = (_sp.get("parts") or [{}]) + [_part]
+    _sp["coq_targets"] = _sp["coq_targets"] + ["Checks/Chaincheck.vo"]
+    _sp["trusted_base"] = _sp["trusted_base"] + CHAIN_TB
+    _sp["level_text"] = _sp["level_text"] + _note
 
 
 # ---------------------------------------------------------------------------------------------
